@@ -6,6 +6,7 @@ import entry as entrymod
 import statics as staticsmod
 import panics as panicsmod
 import ppconsts as ppconstsmod
+import pparms as pparmsmod
 from rustsrc import REPO, unescape_rust_str
 
 NSHARDS = 16
@@ -341,6 +342,8 @@ def generate(workdir='/verif/work'):
     if write_if_changed(os.path.join(GEN, 'Conv.lean'), '\n'.join(c)): changed.append('Conv')
     ppc = ppconstsmod.scan()
     if write_if_changed(os.path.join(GEN, 'PpConsts.lean'), ppconstsmod.emit(ppc)): changed.append('PpConsts')
+    ppa = pparmsmod.scan()
+    if write_if_changed(os.path.join(GEN, 'PpArms.lean'), pparmsmod.emit(ppa)): changed.append('PpArms')
     cn, ctotal = corpus.write(workdir)
     summary = {
         'productions': len(names), 'opaque': tr.opaque, 'combinators': sorted(tr.comb_templates),
@@ -348,7 +351,7 @@ def generate(workdir='/verif/work'):
         'kinds': len(tr.kinds), 'keyword_tables': {v: len(t) for v, t in zip(vers, tbls)}, 'kw_default': dflt,
         'kw_problems': kw_problems, 'entry_problems': eproblems, 'statics': [list(x) for x in sitems], 'clears': sclears, 'panic_growth': panic_growth, 'pp_reachable': sorted(pp_reach), 'memo_attrs': memo_attrs, 'memo_attr_changes': memo_changes, 'panic_sites': sum(sum(v.values()) for v in pcur.values()), 'conv_rows': len(rows), 'conv_opaque': conv_opaque,
         'productive_marks': len(mlist), 'unmarked': sorted(n for n in names if n not in marks),
-        'pp_const_problems': ppc['problems'], 'corpus': cn, 'test_macros': ctotal, 'changed_modules': changed,
+        'pp_const_problems': ppc['problems'] + ppa['problems'], 'corpus': cn, 'test_macros': ctotal, 'changed_modules': changed,
         'names': names, 'kind_names': ['Locate'] + [k[0] for k in tr.kinds],
         'kind_sorts': {k[0]: k[1] for k in tr.kinds},
     }
